@@ -1,0 +1,26 @@
+//! Verification instrumentation, only compiled with the `verif_hooks` feature.
+//!
+//! Counts how many node visits `RankCalc::calc` performs on the current
+//! thread, so that a check can bound the work done by `FnGraphBuilder::build`.
+
+use std::cell::Cell;
+
+thread_local! {
+    static RANK_CALC_VISITS: Cell<u64> = const { Cell::new(0) };
+}
+
+/// Records one node visit by `RankCalc::calc`.
+pub(crate) fn rank_calc_visit() {
+    RANK_CALC_VISITS.with(|visits| visits.set(visits.get() + 1));
+}
+
+/// Resets the visit counter of the current thread.
+pub fn rank_calc_visits_reset() {
+    RANK_CALC_VISITS.with(|visits| visits.set(0));
+}
+
+/// Returns the number of visits recorded on the current thread since the last
+/// reset.
+pub fn rank_calc_visits() -> u64 {
+    RANK_CALC_VISITS.with(|visits| visits.get())
+}
